@@ -29,6 +29,8 @@ func init() {
 			ruleC20P4(r, le)
 			ruleC20P5(r, cut)
 			ruleC01R2(r, cut) // registered under id R2: every cut, whatever triggered it, resets the size the policy is asked about
+			ruleC20P7(r)
+			r.borrow("C01", func() { ruleC01R8(r) }) // the send buffer owns its slices (a snapshot of buffered points must not change under the caller)
 		},
 	})
 }
@@ -461,4 +463,82 @@ func ruleC20P5(r *Run, cut *cutInfo) {
 		}
 	})
 	r.Check(name+" empty-buffer guard", ok, posOf(p, cut.Build), name, "the chunk construction must be reachable only when len(sendBuffer) != 0 (an empty cut burns a sequence number and sends an empty chunk)")
+}
+
+// ruleC20P7: accepted means accepted. Once the hand-over of a write to the flush loop has happened the call must
+// report success: the points are in the buffer and will be cut. Reporting an error for them makes every account of
+// accepted versus buffered and sent points wrong.
+func ruleC20P7(r *Run) {
+	r.Begin("P7", "a handed-over write reports success: in WriteDataPoints every return reachable from the select branch that sent the group to the flush loop returns a nil error, and the Done() branches return a non-nil one", 2)
+	p := r.P
+	fn := r.method("/iscp", "Upstream", "WriteDataPoints")
+	if fn == nil {
+		return
+	}
+	name := fnName(fn)
+	found := false
+	allInstrs(fn, func(ins ssa.Instruction) {
+		sel, ok := ins.(*ssa.Select)
+		if !ok {
+			return
+		}
+		for i, st := range sel.States {
+			sb := selectStateBlock(sel, i)
+			if sb == nil {
+				continue
+			}
+			if st.Dir == types.SendOnly && hasLeaf(p.Leaves(st.Chan, provOpts{}), "field:/iscp.Upstream.dpgCh") {
+				found = true
+				okAll := true
+				var at ssa.Instruction = sel
+				for _, b := range fn.Blocks {
+					if !(b == sb || sb.Dominates(b)) {
+						continue
+					}
+					if ret, isRet := b.Instrs[len(b.Instrs)-1].(*ssa.Return); isRet {
+						rs := retResults(ret)
+						if len(rs) == 0 || !isNilConst(rs[len(rs)-1]) {
+							okAll = false
+							at = ret
+						}
+					}
+				}
+				// the branch may also fall through to a shared return: follow unconditional jumps
+				if ret := firstReturnFromAny(sb); ret != nil {
+					rs := retResults(ret)
+					if len(rs) == 0 || !isNilConst(rs[len(rs)-1]) {
+						okAll = false
+						at = ret
+					}
+				}
+				r.Check(name+" accepted write returns nil", okAll, posOf(p, at), name, "after the group was handed to the flush loop the call returns something other than the nil constant")
+			}
+			if st.Dir == types.RecvOnly {
+				if _, isDone := doneLike(st.Chan); isDone {
+					if ret := firstReturnFrom(sb); ret != nil {
+						r.Check(fmt.Sprintf("%s done branch#%d returns an error", name, i), nonNilErrReturn(ret), posOf(p, ret), name, "a write refused because a context ended must not report success")
+					}
+				}
+			}
+		}
+	})
+	if !found {
+		r.Undecided(name+" hand-over", "no select sends on Upstream.dpgCh")
+	}
+}
+
+// firstReturnFromAny follows unconditional jumps (joins included) to the first return.
+func firstReturnFromAny(b *ssa.BasicBlock) *ssa.Return {
+	for d := 0; d < 6 && b != nil; d++ {
+		for _, ins := range b.Instrs {
+			if ret, ok := ins.(*ssa.Return); ok {
+				return ret
+			}
+		}
+		if len(b.Succs) != 1 {
+			return nil
+		}
+		b = b.Succs[0]
+	}
+	return nil
 }
